@@ -1,4 +1,4 @@
-// CONFIGS: back back11 backmp11
+// CONFIGS: back back11 backmp11 backmp11_ct
 // family `copy` (C15): copy construction (from a const reference) and assignment at several configurations, with and without
 // pending events; the copy and the original continue independently.
 #include "common.hpp"
